@@ -146,6 +146,70 @@ fn observe(c: &Case) -> Obs {
     }
 }
 
+/// The same fetch through the public `LoRa` API: prepare a reception with the case's header mode and
+/// configured length, start it, let the chip report RxDone with the case's length/offset, then fetch
+/// with `complete_rx` (entry 0) or `get_rx_result` (entry 1). The answer must be the driver's.
+fn observe_lora(c: &Case, entry: u8) -> Obs {
+    use lora_modulation::{Bandwidth, CodingRate, SpreadingFactor};
+    use lora_phy::RxMode;
+    const PAD: usize = 16;
+    let mut outer: Vec<u8> = (0..c.bufsize + 2 * PAD).map(canary_byte).collect();
+    for i in 0..c.bufsize {
+        outer[PAD + i] = caller_byte(i);
+    }
+    let w = World::new(if c.chip == 126 { Kind::Sx126x } else { Kind::Sx127x });
+    w.borrow_mut().log_on = false;
+    let arm = |w: &Shared| {
+        let mut m = w.borrow_mut();
+        for i in 0..256 {
+            m.buffer[i] = chip_byte(c.seed, i);
+        }
+        if c.chip == 126 {
+            m.status = c.status;
+            m.rx_len = c.len;
+            m.rx_start = c.off;
+            m.regs[0x0702] = c.alt;
+            m.irq_default = 0x0002; // RxDone
+        } else {
+            m.regs[0x13] = c.len;
+            m.regs[0x10] = c.off;
+            m.irq_default = 0x40; // RxDone
+        }
+    };
+    macro_rules! go {
+        ($rk:expr) => {{
+            let slice = &mut outer[PAD..PAD + c.bufsize];
+            guarded(AssertUnwindSafe(|| {
+                let mut lora = block_on(lora_phy::LoRa::new($rk, true, FakeDelay(w.clone()))).unwrap();
+                let mdl = lora.create_modulation_params(SpreadingFactor::_7, Bandwidth::_125KHz, CodingRate::_4_5, 868_100_000).unwrap();
+                let pkt = lora.create_rx_packet_params(8, c.implicit, c.alt, true, true, &mdl).unwrap();
+                block_on(lora.prepare_for_rx(RxMode::Single(100), &mdl, &pkt)).unwrap();
+                block_on(lora.start_rx()).unwrap();
+                arm(&w);
+                if entry == 0 {
+                    block_on(lora.complete_rx(&pkt, slice)).map(|(n, _)| n)
+                } else {
+                    block_on(lora.get_rx_result(&pkt, slice)).map(|(n, _)| n)
+                }
+            }))
+        }};
+    }
+    let res = if c.chip == 126 { go!(mk126(&w)) } else { go!(mk127(&w)) };
+    let canary_ok = (0..PAD).all(|i| outer[i] == canary_byte(i))
+        && (PAD + c.bufsize..c.bufsize + 2 * PAD).all(|i| outer[i] == canary_byte(i));
+    let ptr = w.borrow().fifo_ptr;
+    Obs {
+        out: match res {
+            None => Out::Panic,
+            Some(Ok(n)) => Out::Ok(n),
+            Some(Err(e)) => Out::Err(e),
+        },
+        buf: outer[PAD..PAD + c.bufsize].to_vec(),
+        canary_ok,
+        ptr,
+    }
+}
+
 fn show_out(o: &Out) -> String {
     match o {
         Out::Ok(n) => format!("ok:{}", n),
@@ -306,6 +370,19 @@ pub fn eval(op: &str) -> String {
             let o = observe(&c);
             format!("{} {} {}", show_out(&o.out), hex(&o.buf), if o.canary_ok { "canary-ok" } else { "canary-SMASHED" })
         }
+        ["C18", "lora", entry, rest @ ..] => {
+            let Some(c) = parse_case(rest) else { return "bad-op".into() };
+            let e: u8 = match *entry {
+                "complete_rx" => 0,
+                "get_rx_result" => 1,
+                _ => return "bad-op".into(),
+            };
+            if c.fault.is_some() {
+                return "bad-op".into();
+            }
+            let o = observe_lora(&c, e);
+            format!("{} {} {}", show_out(&o.out), hex(&o.buf), if o.canary_ok { "canary-ok" } else { "canary-SMASHED" })
+        }
         ["C18", "rxp", rest @ ..] => {
             let Some(c) = parse_case(rest) else { return "bad-op".into() };
             if c.chip != 127 {
@@ -463,6 +540,11 @@ pub fn run(tier: &str, seed: u64, dir: &str) {
                         if chip == 127 {
                             let op = case_op("rxp", &c);
                             sink.case(&op, &eval(&op), "sx127-fifo-pointer", true);
+                        }
+                        // the same fetch through LoRa::complete_rx / LoRa::get_rx_result
+                        for entry in ["complete_rx", "get_rx_result"] {
+                            let op = case_op(&format!("lora {}", entry), &c);
+                            sink.case(&op, &eval(&op), &format!("through-LoRa-{}", if implicit { "implicit" } else { "explicit" }), true);
                         }
                     }
                 }
